@@ -1,4 +1,5 @@
 import NucleoVerif.Props.C07
+import NucleoVerif.Props.C01
 /-! # C07 (companion file) — appending text changes only the last atom
 
 `MultiPattern::reparse` reports `Update` only for an appended text (`C07_update_rule`).  The splitter works left to
@@ -78,5 +79,34 @@ example :
     (parsePattern (fun c => c.map (fun _ => 1)) [102, 111, 111, 32, 98] .smart .smart).map (·.needle) = [[102, 111, 111], [98]] ∧
     (parsePattern (fun c => c.map (fun _ => 1)) ([102, 111, 111, 32, 98] ++ [97]) .smart .smart).map (·.needle) = [[102, 111, 111], [98, 97]] := by
   decide
+
+/-! ## a longer fuzzy needle matches less (the kinds `can_append_to` admits narrow; here the fuzzy kind, through the
+decision theorems of C01, for a fixed configuration) -/
+
+open Spec Sub in
+theorem subseqB_of_append (n s L : List Nat) (h : subseqB (n ++ s) L = true) : subseqB n L = true := by
+  rw [subseqB_iff_sublist] at h ⊢
+  exact (List.sublist_append_left n s).trans h
+
+open Spec in
+/-- code-point haystacks: whatever the fuzzy matcher finds for `n ++ s` it finds for `n` -/
+theorem C07_fuzzy_append_narrows_unicode (cfg : Cfg) (ext : Ext) (nrep : Rep) (h n s : List Nat)
+    (hn : (n ++ s).map (norm cfg nrep) = n ++ s)
+    (hm : (fuzzyMatch cfg ext .unicode nrep h (n ++ s)).isSome = true) : (fuzzyMatch cfg ext .unicode nrep h n).isSome = true := by
+  have hn' : n.map (norm cfg nrep) = n := by
+    rw [List.map_append] at hn
+    exact (List.append_inj hn (by simp)).1
+  rw [C01_decision_unicode cfg ext nrep h (n ++ s) hn] at hm
+  rw [C01_decision_unicode cfg ext nrep h n hn']
+  exact subseqB_of_append n s _ hm
+
+open Spec in
+/-- ASCII haystacks and needles -/
+theorem C07_fuzzy_append_narrows_ascii (cfg : Cfg) (ext : Ext) (h n s : List Nat) (hasc : ∀ x ∈ h, x < 128)
+    (hn : ∀ c ∈ n ++ s, normAscii cfg c = c)
+    (hm : (fuzzyMatch cfg ext .ascii .ascii h (n ++ s)).isSome = true) : (fuzzyMatch cfg ext .ascii .ascii h n).isSome = true := by
+  rw [C01_decision_ascii cfg ext h (n ++ s) hasc hn] at hm
+  rw [C01_decision_ascii cfg ext h n hasc (fun c hc => hn c (List.mem_append_left s hc))]
+  exact subseqB_of_append n s _ hm
 
 end NucleoVerif
